@@ -19,7 +19,7 @@ RULE = ("C01's schemas and reachable states (a valid prefix history), then faili
         "fields/include_field.py during loads/load; whenever such an operation raises, M-same compares values at all "
         "depths, user-defined flags and identities of nested configurations before/after; non-trivial = >= 2 "
         "raising listed operations judged; distinct = distinct (schema, history)")
-REQUIRED = ("failed_loads_after_the_environment_changed", "foreign_items_rejected_by_a_second_configuration", "readonly_assignments_rejected", "rejected_replacements_through_an_equal_key_of_another_type", "dotted_continuations_into_nested_dicts_rejected", "derived_containers_rejected_by_field_validator", "list_reuse_rejections", "wrong_root_documents_rejected", "incomplete_objects_rejected", "incomplete_maps_rejected", "dotted_into_dict_rejections", "corrupt_include_files", "same_checks", "raised:set", "raised:set-sub", "raised:ctor", "raised:listop", "raised:dictop",
+REQUIRED = ("failed_loads_with_late_or_chained_includes", "failed_loads_after_the_environment_changed", "foreign_items_rejected_by_a_second_configuration", "readonly_assignments_rejected", "rejected_replacements_through_an_equal_key_of_another_type", "dotted_continuations_into_nested_dicts_rejected", "derived_containers_rejected_by_field_validator", "list_reuse_rejections", "wrong_root_documents_rejected", "incomplete_objects_rejected", "incomplete_maps_rejected", "dotted_into_dict_rejections", "corrupt_include_files", "same_checks", "raised:set", "raised:set-sub", "raised:ctor", "raised:listop", "raised:dictop",
             "raised:loads-unparsable", "raised:loads-include", "failpoint_injections_raised")
 ASSUMPTIONS = ["only the kinds of operation listed in the property are judged (a tree that parses but fails validation "
                "half way, extend / slice / update with a bad element are outside the statement)",
@@ -336,6 +336,8 @@ def run(case, ctx, res):
         return
     if len(case["ops"]) % 5 == 0 and not _failed_loads_after_environment_change(ctx, res, len(case["prefix"])):
         return
+    if len(case["ops"]) % 5 == 1 and not _late_and_chained_includes(ctx, res, len(case["prefix"]) + len(case["ops"])):
+        return
     # first assignments to names a dynamic configuration does not know yet: whatever is refused (a field object, a schema,
     # a class ...) leaves no trace of the name
     holders = [("", drv.cfg)] if drv.root.get("dynamic") else []
@@ -452,6 +454,70 @@ def _failed_loads_after_environment_change(ctx, res, seed):
                              "configuration was built; a document that cannot be loaded (%s) raised, but the configuration changed: %s" % (
                                  fmt, how, "; ".join(d[:4])))
                     return False
+    return True
+
+
+def _late_and_chained_includes(ctx, res, seed):
+    """(A) an include field is added to a nested section after the configuration has loaded documents; (B) a section that has
+    its own include field is declared before the include field of the enclosing level, and the file included there gives the
+    section's include key the name of a missing file.  Either way the missing file is noticed before anything is applied."""
+    import os
+
+    from ..common import Snapshot
+
+    cc, d = ctx.cc, ctx.dir
+    fmt = ("json", "yaml", "xml", "pickle", "bson")[seed % 5]
+    codec = cc.ConfigFormat.get(fmt)
+    missing = os.path.join(d, "no-such-include-file")
+    # (A)
+    schema = cc.Schema()
+    schema.name = cc.StringField(default="n")
+    schema.port = cc.IntField(default=80)
+    schema.db.host = cc.StringField(default="h")
+    cfg = schema()
+    try:
+        cfg.loads(codec.dumps(cfg, {"port": 81}), fmt)
+        schema.db.include = cc.IncludeField()
+        doc = codec.dumps(cfg, {"name": "changed", "port": 9000, "db": {"host": "h2", "include": missing}})
+    except Exception:
+        doc = None
+    if doc is not None:
+        before = Snapshot(cfg)
+        try:
+            cfg.loads(doc, fmt)
+        except Exception:
+            res.count("failed_loads_with_late_or_chained_includes")
+            diff = before.diff(Snapshot(cfg))
+            if diff:
+                res.viol("M-same", "loads-include:field-added-after-earlier-loads", "%s: an include field was added to a nested section after "
+                         "the configuration had loaded a document; a document naming a missing file there raised, but the configuration "
+                         "changed: %s" % (fmt, "; ".join(diff[:4])))
+                return False
+    # (B)
+    s2 = cc.Schema()
+    s2.sub.v = cc.IntField(default=1)
+    s2.sub.include = cc.IncludeField()
+    s2.port = cc.IntField(default=80)
+    s2.inc = cc.IncludeField()
+    c2 = s2()
+    part = os.path.join(d, "chained-part.cfg")
+    try:
+        with open(part, "wb") as fp:
+            fp.write(codec.dumps(c2, {"sub": {"include": missing, "v": 5}}))
+        doc = codec.dumps(c2, {"port": 9000, "inc": part})
+    except Exception:
+        return True
+    before = Snapshot(c2)
+    try:
+        c2.loads(doc, fmt)
+    except Exception:
+        res.count("failed_loads_with_late_or_chained_includes")
+        diff = before.diff(Snapshot(c2))
+        if diff:
+            res.viol("M-same", "loads-include:section-include-named-by-the-enclosing-include", "%s: the file included at the root gives the "
+                     "include key of a section (declared before the root's include field) the name of a missing file; the load raised, but "
+                     "the configuration changed: %s" % (fmt, "; ".join(diff[:4])))
+            return False
     return True
 
 
